@@ -8,8 +8,8 @@ CONSTANTS
   MaxNodes = 2
   MaxStack = 2
   BugOptionalDropsNone = FALSE
-  FixedStar = FALSE
-  FixedFinalInString = FALSE
-  FixedNestedLiteral = FALSE
+  FixedStar = TRUE
+  FixedFinalInString = TRUE
+  FixedNestedLiteral = TRUE
 INVARIANT AnnotationRoutesAgreeStrict
 CHECK_DEADLOCK FALSE
